@@ -255,6 +255,8 @@ class FakeHidOS:
         if getattr(gw, "elog", None) and data[0] == 0x12 and not isinstance(gw, GwHasseb):
             k = "edt" if (data[3] == 3 and data[6] == 0xC1) else "cmd"
             gw.elog({"ev": "write", "c": _task_name(), "kind": k})
+        elif getattr(gw, "elog", None) and data[0] == 0x40 and not isinstance(gw, GwHasseb):
+            gw.elog({"ev": "write", "c": _task_name(), "kind": "cmd"})       # power-supply request
         gw.log_write(data)
         gw.on_write(bytes(data))
         return len(data)
